@@ -256,6 +256,12 @@ func (mc *monitoredConn) notify(state connectivity.State) {
 	}
 	// Inform all multiendpoints.
 	mc.gme.mu.RLock()
+	if mc.gme.pools[mc.endpoint] != mc {
+		// This pool was removed (and maybe replaced by a new pool for the same
+		// endpoint): its state must not affect the multiendpoints anymore.
+		mc.gme.mu.RUnlock()
+		return
+	}
 	for _, me := range mc.gme.mes {
 		me.SetEndpointAvailability(mc.endpoint, state == connectivity.Ready)
 	}
